@@ -202,6 +202,7 @@ fn draw_steps(rng: &mut Rng, index: u64) -> Vec<Step> {
             plan,
             thread: threads && rng.chance(1, 3),
             subject: as_subject,
+            fastrand_seed: None,
         });
     }
     steps
